@@ -3,6 +3,34 @@
 import json, subprocess
 ALL = ["C%02d" % i for i in range(1, 21)]
 CHECKS = {
+ "C01": dict(cat="exploration", tech="exhaustive enumeration of boundary payloads x versions x levels x masks and of all short texts x option assignments, round-trip oracle",
+   text="QR write->read on the real code: every version x level x five payload families (numeric, alphanumeric, byte ISO-8859-1 over all 256 values, byte UTF-8, Kanji) at capacity, capacity-1 (thorough: -2) with forced masks (quick: rotating mask, all masks on five versions; thorough: all 9 mask settings), capacity+1 refused, the automatic version choice at every boundary, all strings of length <=2 (thorough <=3/4) over a 16-symbol alphabet x deviation-bounded / full products of level, mask, version and charset hints, and the rendered-image path in pure-barcode mode for 10/40 versions x 7 sizes x 4 margins. Capacities and representability come from ref/qr and x/text; the reference reader independently confirms version, level, mask and mode of each symbol.",
+   note="Round-trip property: the oracle is read(write(t)) == t on the library itself; ref/qr supplies capacities and confirms the symbol parameters. Charsets other than UTF-8/ISO-8859-1/Shift_JIS are C15's.",
+   ref="5/C01"),
+ "C07": dict(cat="exploration", tech="exhaustive comparison of every table entry, code word and module matrix with an independent ISO/IEC 18004 construction",
+   text="All 1280 (version, level, mask) configurations x payload families (quick: 5 lengths, all masks on ten versions and a rotating mask elsewhere; thorough: full product x 9 lengths x 2 patterns), raw codeword streams through MatrixUtil_buildMatrix (zero/ones/55/AA/counting and single-bit streams), every character group of every mode on version 40, every payload length on versions 1..9/1..20: library matrix == ref/qr.Build module for module, mismatches classified by module class. Decoder tables for all 160 (version, level) and 40 versions, all 32768 format words (both arguments) and all 262144 version words against BCH recomputation and brute-force Hamming distance, both mask implementations on the full 177x177 grid, character-count widths, dimension lookup.",
+   note="Trusted: verif/ref/qr (written from the standard, validated against published tables and worked examples). Reed-Solomon linearity is used to derive the reference for single-bit codeword streams.",
+   ref="5/C07"),
+ "C08": dict(cat="exploration", tech="exhaustive comparison of every table row, parity vector, placement and randomiser position with an independent ISO/IEC 16022 construction",
+   text="For all 30 ECC 200 sizes: encoder symbol attributes and the decoder's version table (white-box accessor and black-box via decoding reference symbols with floor(ec/2) errors in every block) against ref/dm; ErrorCorrection_EncodeECC200 for zero/ones/55/AA/counting/every single-bit vector (thorough: every value at every position of single-block sizes) against the reference incl. the 144x144 block rotation; all 16 generator polynomials black-box and white-box; DefaultPlacement for the same vector family, every module; whole symbols from the writer for texts reaching all 30 sizes; pad codewords at every position 2..1558 and Base-256 randomisation at every position against the 253/255-state formulae.",
+   note="Trusted: verif/ref/dm. Which size and encodation the high-level encoder chooses is not judged here (C02, C13). Base-256 exact-fill lengths are left to C02.",
+   ref="5/C08"),
+ "C09": dict(cat="exploration", tech="exhaustive enumeration of the padding x scale x rotation x mirror x try-harder transform group over library-written symbols",
+   text="Images written by the library's own writers (QR versions 1..10 x levels x texts, 6/12 Data Matrix sizes, nine 1-D symbologies x 4/12 contents) are padded {0,1,4,16,40}, upscaled 1..6, rotated by quarter turns, transposed (QR) and read through the normal locating path with and without TRY_HARDER: the outcome must be the exact content or a NotFound/Checksum/Format error. Positive obligations: upside-down 1-D symbols read with ORIENTATION 180, sideways ones under TRY_HARDER, the QR decoder on the transposed matrix reads and flags mirrored, a mirrored QR image reads in at least one pose. Outcome counts per transform class are recorded; classes without a successful read are flagged vacuous.",
+   note="Locating is heuristic: not finding a symbol is never a violation here. Quick trims axes (stated in the sub-space names) rather than sampling.",
+   ref="5/C09"),
+ "C14": dict(cat="exploration", tech="exhaustive sweep of requested sizes and margins, per-pixel comparison with the statement's geometry formula",
+   text="QR version 1 on the full square of (width,height) requests up to 3x natural+2 and versions 2/7/40 on width/height/diagonal sweeps x margins {0,1,4,5,20,none} (thorough 0..20); Data Matrix 10x10 and 8x18 full squares, larger sizes on sweeps; nine 1-D writers x 2 contents x margins x heights {0,1,2,37} x every width up to 4x/8x natural+2: size, module size, padding, quiet zone, every pixel, centre sampling and the image.Image view against the formula of the property evaluated independently.",
+   note="The module matrix is Encoder_encode's for QR and the 0x0/margin-0 rendering for Data Matrix and 1-D (by definition the bare symbol; structurally validated). Negative sizes/margins belong to C12.",
+   ref="5/C14"),
+ "C18": dict(cat="model_checking", tech="stateless schedule exploration (cooperative scheduler over automatically instrumented library, iterative preemption bounding) + free-running race-detector pass",
+   text="Stage 1: the shared-state footprint (deep hash of every package-level variable, re-hashed during the run) of each of 51 operations in a fresh process. Stage 2: every pair of operations (threads [a,b] || [b,a]) and triples of a sub-alphabet run under the cooperative scheduler of sched/zzrt on the instrumented library; when no thread writes a variable another accesses, the operations are independent at every statement and all thread orders are executed; otherwise every schedule with 0,1,..K preemptions at the statements that can touch those variables is executed, one fresh process each; every call must return what it returns alone, no panic, shared state unchanged. Stage 3: the same bodies, plain library, -race, free running, on 4 (thorough 2/8/16) goroutines.",
+   note="Scheduling points are statements that mention a package-level variable or run inside a function that received a pointer/slice/map into memory reachable from one (receiver/parameter based; a struct field aliasing shared memory without passing through a parameter is only seen by the race pass). Sequential consistency between points. Point and execution caps are reported when hit.",
+   ref="5/C18"),
+ "C19": dict(cat="exploration", tech="exhaustive enumeration of quadrilateral pairs, grids and edge offsets against exact rational projective geometry",
+   text="44 496 strictly convex source quadrilaterals (7 bases x 3^8 corner displacements) x a destination family (5 quick / 40 thorough) plus square<->quadrilateral constructors: corners and a 9x9 probe lattice against the unique projective map solved exactly in big.Rat; grid sampling for 39/49 dimension pairs x 57 dyadic transforms x 4 images x both entry points, every cell against pixel(floor(T(x+1/2,y+1/2))); nudging per edge and per pass, directly and through both sampler entry points, over the 1/8-pixel lattice from 3 px outside one side to 3 px outside the other, with ring-coded images so that any out-of-image or displaced pixel is visible.",
+   note="Trusted: the exact oracle in checks/c19. Nudge band (-2,-1) accepted either way (truncation toward zero, as documented in DESIGN.md section 7). Cells within 1/64 px of a pixel boundary are skipped by an exact test.",
+   ref="5/C19"),
  "C06": dict(cat="exploration", tech="exhaustive enumeration of short inputs and deviation-bounded mutation of valid symbols, totality oracle",
    text="Every byte string up to 2/3 bytes into the QR (4 versions) and Data Matrix codeword parsers, every mode nibble x 18 segment kinds x every truncation x charset hints, every ECI designator in all three encodings, every bit string up to 16/20 bits and all FLG(n)/binary-shift headers into the Aztec high-level decoder; QR and Data Matrix module decoders on every width x height up to 40/50 squared and the large sizes with 8 fills, every single (and for the smallest symbols double) module flip of valid symbols; the Aztec decoder on every (mode, layers, data-block count) incl. out-of-range ones; 14 row decoders on every pixel row up to 14/20 pixels and on valid rows with every single run +-1, truncation and reversal, Code 39 for every string <=2/3 over its alphabet in all four flag combinations; 16 image readers on every bilevel image up to 9/16 pixels, every size up to 30/48 squared with fills, rendered symbols with every pixel flip / deleted row or column / crop and all 256 hint subsets. Oracle: returns under the watchdog, no panic, exactly one of result/error, image-level errors carry a NotFound/Checksum/Format exception in their chain.",
    note="Valid symbols are produced by the library's own writers (only totality is judged, so no independent encoder is needed). Symbol-character-level mutation of Code 93/128 rows is added through ref/oned once available.",
@@ -53,7 +81,7 @@ def main():
         },
         "engines": [
             {"name": "mc", "path": "/verif/mc", "serves_properties": sorted(CHECKS.keys()),
-             "kind_free_text": "hand-written bounded-exhaustive explorer: odometer/string enumeration, explicit-state BFS over operation histories replayed on real objects, deviation-bounded fault enumeration, parallel range runner with panic capture and CPU-time hang watchdog"},
+             "kind_free_text": "hand-written bounded-exhaustive explorer (sched/zzrt + sched/instr: cooperative scheduler and AST instrumenter for C18);: odometer/string enumeration, explicit-state BFS over operation histories replayed on real objects, deviation-bounded fault enumeration, parallel range runner with panic capture and CPU-time hang watchdog"},
         ],
         "checks": checks,
         "not_applicable": [{"property_id": p, "reason": PENDING_REASON} for p in ALL if p not in CHECKS],
